@@ -214,6 +214,7 @@ impl PhTy for str { fn phty() -> Ty { Ty::Str } }
 impl PhTy for String { fn phty() -> Ty { Ty::String } }
 impl PhTy for (u8, u16) { fn phty() -> Ty { Ty::TupleHet(vec![Ty::Prim(Prim::U8), Ty::Prim(Prim::U16)]) } }
 impl PhTy for Vec<u8> { fn phty() -> Ty { Ty::Vec(Box::new(Ty::Prim(Prim::U8))) } }
+impl<T: Dom, const N: usize> PhTy for [T; N] { fn phty() -> Ty { Ty::Array(Box::new(T::ty()), N) } }
 
 impl<X: PhTy + ?Sized> Dom for PhantomData<X> {
     fn ty() -> Ty { Ty::Phantom(Box::new(X::phty())) }
